@@ -1370,3 +1370,141 @@ Section KInv.
     induction 1 as [|s l s' Hr IH Hstep]; [apply KInv_init|]. eapply KInv_step; eassumption.
   Qed.
 End KInv.
+
+(* ------------------------------------------------------------------ *)
+(** * C03 leader completeness, C04 commit rule, C01 state-machine safety *)
+
+Inductive lsteps (inc out : list N) : lst -> lst -> Prop :=
+| lsteps_refl : forall s, lsteps inc out s s
+| lsteps_step : forall s s1 l s2, lsteps inc out s s1 -> lrule inc out l s1 = Some s2 -> lsteps inc out s s2.
+
+Section Safety.
+  Variables (inc out : list N).
+  Hypothesis inc_nonempty : inc <> [].
+  Hypothesis Hmulti : no_single_quorum inc out.
+  Notation lrule := (lrule inc out).
+  Notation lreachable := (lreachable inc out).
+  Notation lsteps := (lsteps inc out).
+  Notation Block := (Block inc out).
+
+  Lemma cpt_not_blocked s T k : lreachable s -> In (T, k) (cpts s) -> ~ Block s T k.
+  Proof.
+    intros Hr Hin (Q' & HQ' & HB).
+    destruct (k_cpt inc out s (lreachable_KInv inc out inc_nonempty Hmulti s Hr) T k Hin) as (_ & Q & HQ & HQa).
+    destruct (has_quorum_intersect inc out Q Q' HQ HQ') as [Hi _].
+    destruct (Hi inc_nonempty) as (v & _ & Hv1 & Hv2).
+    destruct (HB v Hv2) as [_ Hnp]. apply Hnp. left. apply HQa. exact Hv1.
+  Qed.
+
+  Lemma cpt_own s T k : lreachable s -> In (T, k) (cpts s) -> own (llog s) T k.
+  Proof.
+    intros Hr Hin.
+    destruct (k_cpt inc out s (lreachable_KInv inc out inc_nonempty Hmulti s Hr) T k Hin) as (Ho & _). exact Ho.
+  Qed.
+
+  (* C03: every leader of a term >= T has the entries of every commit point of T *)
+  Theorem leader_completeness s T k t : lreachable s -> In (T, k) (cpts s) -> T <= t -> llog s t <> [] ->
+    (k <= length (llog s t))%nat /\ firstn k (llog s t) = firstn k (llog s T).
+  Proof.
+    intros Hr Hin HTt Hne. pose proof (cpt_own s T k Hr Hin) as Ho.
+    destruct (N.eq_dec T t) as [<-|Hnt]; [destruct Ho as [[_ Hk] _]; split; [exact Hk|reflexivity]|].
+    destruct (n_lead inc out s (lreachable_NInv inc out inc_nonempty Hmulti s Hr) T k t Ho) as [Ha|Hb];
+      [lia|exact Hne|exact Ha|].
+    exfalso. eapply cpt_not_blocked; eassumption.
+  Qed.
+
+  Theorem leader_completeness_roles s T k c : lreachable s -> In (T, k) (cpts s) ->
+    p_role (nodes (el s) c) = PL -> T <= p_term (nodes (el s) c) ->
+    (k <= length (l_log (ln s c)))%nat /\ firstn k (l_log (ln s c)) = firstn k (llog s T).
+  Proof.
+    intros Hr Hin Hrl HT. pose proof (lreachable_el _ _ _ Hr) as Hre.
+    assert (Hl : own_term_leader s c = true).
+    { apply own_term_leader_spec. split; [exact Hrl|]. apply (leader_up inc out (el s) Hre c Hrl). }
+    rewrite (li_B s (lreachable_LInv inc out inc_nonempty Hmulti s Hr) c Hl).
+    apply leader_completeness; [exact Hr|exact Hin|exact HT|].
+    apply (leader_llog_nonempty inc out inc_nonempty Hmulti s Hr _ c). apply (leader_recorded inc out); assumption.
+  Qed.
+
+  (* F5: commit points are mutually consistent *)
+  Theorem commit_points_consistent s T1 k1 T2 k2 : lreachable s ->
+    In (T1, k1) (cpts s) -> In (T2, k2) (cpts s) ->
+    firstn (Nat.min k1 k2) (llog s T1) = firstn (Nat.min k1 k2) (llog s T2).
+  Proof.
+    intros Hr H1 H2.
+    assert (Hne : forall T k, In (T, k) (cpts s) -> llog s T <> []).
+    { intros T k Hin. destruct (cpt_own s T k Hr Hin) as [[Ha Hb] _]. destruct (llog s T); [cbn in Hb; lia|discriminate]. }
+    destruct (N.le_ge_cases T1 T2) as [Hle|Hle].
+    - destruct (leader_completeness s T1 k1 T2 Hr H1 Hle (Hne _ _ H2)) as [_ E].
+      symmetry. eapply firstn_eq_le; [|exact E]. lia.
+    - destruct (leader_completeness s T2 k2 T1 Hr H2 Hle (Hne _ _ H1)) as [_ E].
+      eapply firstn_eq_le; [|exact E]. lia.
+  Qed.
+
+  (* F6 *)
+  Theorem follower_commit_bound s n : lreachable s -> (0 < l_commit (ln s n))%nat ->
+    exists T k, In (T, k) (cpts s) /\ (l_commit (ln s n) <= k)%nat /\
+      firstn (l_commit (ln s n)) (l_log (ln s n)) = firstn (l_commit (ln s n)) (llog s T).
+  Proof. intros Hr. apply (k_commit inc out s (lreachable_KInv inc out inc_nonempty Hmulti s Hr)). Qed.
+
+  (* F7: the entries of a commit point are in the durable log of a quorum, at all times *)
+  Theorem durable_quorum s T k : lreachable s -> In (T, k) (cpts s) ->
+    exists Q, quorum inc out Q = true /\
+      forall z, In z Q -> (k <= length (l_dlog (ln s z)))%nat /\ firstn k (l_dlog (ln s z)) = firstn k (llog s T).
+  Proof.
+    intros Hr Hin.
+    destruct (k_cpt inc out s (lreachable_KInv inc out inc_nonempty Hmulti s Hr) T k Hin) as (Ho & Q & HQ & HQa).
+    exists Q. split; [exact HQ|]. intros z Hz.
+    destruct (n_acked inc out s (lreachable_NInv inc out inc_nonempty Hmulti s Hr) T k z Ho (HQa z Hz)) as [Ha|Hb];
+      [exact Ha|]. exfalso. eapply cpt_not_blocked; eassumption.
+  Qed.
+
+  (* every committed entry of a node is the entry of a commit point *)
+  Lemma committed_entry s n j : lreachable s -> (1 <= j)%nat -> (j <= l_commit (ln s n))%nat ->
+    exists T k, In (T, k) (cpts s) /\ (j <= k)%nat /\ nth_error (l_log (ln s n)) (j - 1) = nth_error (llog s T) (j - 1).
+  Proof.
+    intros Hr Hj Hc. destruct (follower_commit_bound s n Hr) as (T & k & Hin & Hk & Ef); [lia|].
+    exists T, k. split; [exact Hin|]. split; [lia|].
+    apply nth_error_firstn_eq with (k := l_commit (ln s n)); [lia|exact Ef].
+  Qed.
+
+  (* C01: two nodes never commit different entries at the same index *)
+  Theorem state_machine_safety s a b j : lreachable s -> (1 <= j)%nat ->
+    (j <= l_commit (ln s a))%nat -> (j <= l_commit (ln s b))%nat ->
+    nth_error (l_log (ln s a)) (j - 1) = nth_error (l_log (ln s b)) (j - 1).
+  Proof.
+    intros Hr Hj Ha Hb.
+    destruct (committed_entry s a j Hr Hj Ha) as (Ta & ka & Hina & Hka & Ea).
+    destruct (committed_entry s b j Hr Hj Hb) as (Tb & kb & Hinb & Hkb & Eb).
+    rewrite Ea, Eb. apply nth_error_firstn_eq with (k := Nat.min ka kb); [lia|].
+    apply commit_points_consistent; assumption.
+  Qed.
+
+  Lemma lsteps_reachable s s' : lreachable s -> lsteps s s' -> lreachable s'.
+  Proof. intros Hr Hs. induction Hs as [|s s1 l s2 _ IH Hstep]; [exact Hr|]. eapply lreach_step; [apply IH; exact Hr|exact Hstep]. Qed.
+
+  (* commit points and their entries are permanent *)
+  Lemma lsteps_cpt s s' T k : lreachable s -> lsteps s s' -> In (T, k) (cpts s) ->
+    In (T, k) (cpts s') /\ firstn k (llog s' T) = firstn k (llog s T).
+  Proof.
+    intros Hr Hs Hin. induction Hs as [|s s1 l s2 Hs IH Hstep]; [auto|].
+    destruct (IH Hr Hin) as [Hin1 E1]. pose proof (lsteps_reachable s s1 Hr Hs) as Hr1.
+    split; [eapply cpts_mono; eassumption|]. rewrite <- E1.
+    destruct (llog_grows inc out inc_nonempty Hmulti s1 l s2 Hr1 (lreachable_LInv inc out inc_nonempty Hmulti s1 Hr1) Hstep T) as [suf ->].
+    destruct (cpt_own s1 T k Hr1 Hin1) as [[_ Hk] _]. apply firstn_app_le. exact Hk.
+  Qed.
+
+  (* C01, history form: whatever a node has ever reported committed at an index is what
+     any node (the same one after crashes and restarts included) reports there later *)
+  Theorem state_machine_safety_history s s' a b j : lreachable s -> lsteps s s' -> (1 <= j)%nat ->
+    (j <= l_commit (ln s a))%nat -> (j <= l_commit (ln s' b))%nat ->
+    nth_error (l_log (ln s a)) (j - 1) = nth_error (l_log (ln s' b)) (j - 1).
+  Proof.
+    intros Hr Hs Hj Ha Hb. pose proof (lsteps_reachable s s' Hr Hs) as Hr'.
+    destruct (committed_entry s a j Hr Hj Ha) as (Ta & ka & Hina & Hka & Ea).
+    destruct (committed_entry s' b j Hr' Hj Hb) as (Tb & kb & Hinb & Hkb & Eb).
+    destruct (lsteps_cpt s s' Ta ka Hr Hs Hina) as [Hina' Ef].
+    rewrite Ea, Eb. rewrite <- (nth_error_firstn_eq _ _ ka (j - 1) ltac:(lia) Ef).
+    apply nth_error_firstn_eq with (k := Nat.min ka kb); [lia|].
+    apply commit_points_consistent; assumption.
+  Qed.
+End Safety.
